@@ -367,6 +367,9 @@ func TestC20(t *testing.T) {
 		gciph := pick(rt, "gpg.cipher", []string{"AES", "AES192", "AES256"})
 		gcount := pick(rt, "gpg.count", []int{1024, 1025, 2048, 65536, 70000, 100000, 1000000, 3000000})
 		gpass := c17Password(rt, "gpg.pass", uniform(rt, "gpg.passlen", 1, 30), 0)
+		for i, b := range gpass { // letters and digits only: nothing a line-oriented passphrase reader could treat specially
+			gpass[i] = "ABCDEFGHIJKLMNOPQRSTUVWXYZabcdefghijklmnopqrstuvwxyz0123456789"[int(b)%62]
+		}
 		msg := []byte("c20 differential message")
 		mf := filepath.Join(dir, "msg")
 		of := filepath.Join(dir, "out.gpg")
